@@ -850,6 +850,8 @@ func ruleTab4(c *Ctx, r *Reporter) {
 				r.bad(key, c.pos(f.Pos()), "field is excluded from the file (bson:\"-\")")
 			case seen[name] != "":
 				r.bad(key, c.pos(f.Pos()), "bson name "+name+" collides with field "+seen[name])
+			case len(strings.Split(tag, ",")) > 1:
+				r.bad(key, c.pos(f.Pos()), "the bson tag carries codec options ("+strings.Join(strings.Split(tag, ",")[1:], ",")+"): minsize stores an int64 that fits as int32, truncate drops fractions, omitempty drops empty values, inline changes the layout - the value read back is not the value written")
 			default:
 				r.ok(key, c.pos(f.Pos()), "exported, bson name "+name)
 			}
